@@ -186,7 +186,7 @@ def tree_strategy():
     from hypothesis import strategies as st
 
     leaf = st.builds(lambda v: ["ret", v], st.integers(0, 9))
-    return st.recursive(leaf, lambda ch: st.builds(lambda kind, base, kids: [kind, base, kids], st.sampled_from(["sum", "group"]), st.integers(0, 9), st.lists(ch, min_size=1, max_size=3)), max_leaves=7)
+    return st.recursive(leaf, lambda ch: st.builds(lambda kind, base, kids: [kind, base, kids], st.sampled_from(["sum", "group", "wfsum"]), st.integers(0, 9), st.lists(ch, min_size=1, max_size=3)), max_leaves=7)
 
 
 def tdepth(node: Any) -> int:
@@ -214,6 +214,7 @@ def run_tree(kind: str, node: Any, slots: int, pol: tuple, clock: Any, det: Any,
     else:
         app = apps.make_app("mem", **RH.RUNNER_CONF, max_threads=slots, min_threads=slots)
     t = app.task(tasks.prog)
+    app.task(tasks.progwf, force_new_workflow=True)
     tasks.reset_log()
     tasks.RUNS.clear()
     tasks.HOOKS["app"] = app
@@ -252,7 +253,7 @@ def tree_shard(kind: str, seed: int, examples: int, known: list[str]) -> dict:
         rep.holder["case"] = {"backend": kind, "tree": node, "slots": slots, "policy": list(pol)}
         app, env = run_tree(kind, node, slots, pol, clock, det, shared)
         nt = tdepth(node) >= 2 if slots == 1 else tnodes(node) - sum(1 for _ in [0]) >= 4 and tdepth(node) >= 2
-        part.case(key=(kind, node, slots, pol), nontrivial=nt, classes=[f"backend_{kind}", f"slots{slots}", f"depth{tdepth(node)}", f"policy_{pol[0]}", "has_group" if "group" in repr(node) else "chain_only"],
+        part.case(key=(kind, node, slots, pol), nontrivial=nt, classes=[f"backend_{kind}", f"slots{slots}", f"depth{tdepth(node)}", f"policy_{pol[0]}", "has_group" if "group" in repr(node) else "chain_only", "has_subworkflow" if "wfsum" in repr(node) else "no_subworkflow"],
                   sample={**rep.holder["case"], "steps": env.steps})
         if env.failure is not None:
             if isinstance(env.failure, sched.Budget):
